@@ -63,7 +63,7 @@ from __future__ import annotations
 
 import ast
 
-from ..dataflow import defs_of, reaching_defs
+from ..dataflow import _param_args, defs_of, reaching_defs
 from ..model import ancestors, dotted, enclosing_stmt, parent, unparse, walk_no_nested
 from ..selftest import V
 from ._util_G import calls_deep, guards_of, is_call_to
@@ -323,6 +323,25 @@ def _infer(p, f, expr, at=None, depth=0):
     return None
 
 
+def _site_types(p, f, pname: str, depth: int = 2, _seen: tuple = ()):
+    """[(caller, argument, static type)] for parameter `pname` of the private helper `f` at every resolved call site
+    (`_param_args`); an argument that is itself a generically typed parameter of a private helper is followed to that
+    helper's call sites (bound `depth`).  None when the helper is public / has no resolved call site / a site uses */**."""
+    sites = _param_args(p, f, pname)
+    if not sites:
+        return None
+    out = []
+    for g, a in sites:
+        t = _infer(p, g, a, at=a)
+        if t and t[0] == "opaque" and isinstance(a, ast.Name) and depth > 0 and g is not f and g.qualname not in _seen:
+            inner = _site_types(p, g, a.id, depth - 1, _seen + (f.qualname,))
+            if inner:
+                out.extend(inner)
+                continue
+        out.append((g, a, t))
+    return out
+
+
 def _listener_funcs(p):
     c = p.cls(LISTENER)
     return list(c.methods.values())
@@ -363,14 +382,34 @@ def r1(ctx):
                 )
             elif t[0] == "opaque":
                 checked += 1
+                ok, what, msg = name in ANTLR_API, f"{f.name}: `{unparse(c.func)[:50]}()` is part of the generic ParserRuleContext API", \
+                    f"`{name}` is not defined on antlr4.ParserRuleContext, the declared type of `{unparse(c.func.value)}`"
+                wit = []
+                if not ok and isinstance(c.func.value, ast.Name) and f.param_annotation(c.func.value.id) is not None:
+                    # a private helper whose parameter is declared with the generic type: the receiver is what the
+                    # resolved call sites pass (helper extraction); the accessor must exist for every one of them
+                    sites = _site_types(p, f, c.func.value.id)
+                    if sites:
+                        lacking = [(g, a, st) for g, a, st in sites if not (st and st[0] == "ctx" and st[1] and (_pmethod(p, st[1], name) is not None))]
+                        ok = not lacking
+                        shown = sorted({st[1].rpartition(".")[2] for _, _, st in sites if st and st[0] == "ctx" and st[1]})
+                        what = (f"{f.name}: `{unparse(c.func)[:50]}()` is defined for the static type of the argument at every resolved call site "
+                                f"of this private helper ({', '.join(shown)})")
+                        wit = [f"call site {g.qualname}: `{unparse(a)[:50]}` : {st[1].rpartition('.')[2] if st and st[1] else (st[0] if st else 'untyped')}" for g, a, st in sites]
+                        if lacking:
+                            g, a, st = lacking[0]
+                            msg = (f"`{name}` is not defined on antlr4.ParserRuleContext, the declared type of `{unparse(c.func.value)}`, nor on "
+                                   f"{st[1].rpartition('.')[2] if st and st[0] == 'ctx' and st[1] else 'the untyped value'} `{unparse(a)[:50]}` that "
+                                   f"{g.qualname} passes to {f.name}() (followed the resolved call sites of the helper)")
                 ctx.ob(
                     "R1",
-                    f"{f.name}: `{unparse(c.func)[:50]}()` is part of the generic ParserRuleContext API",
-                    name in ANTLR_API,
+                    what,
+                    ok,
                     func=f,
                     node=c,
                     instance=f"{f.name}:accessor:{name}@ParserRuleContext",
-                    message=f"`{name}` is not defined on antlr4.ParserRuleContext, the declared type of `{unparse(c.func.value)}`",
+                    message=msg,
+                    witness=wit,
                 )
             elif t[0] in ("list", "tokens"):
                 checked += 1
@@ -905,8 +944,100 @@ def _origin(al: "_Alias", e, use) -> str:
 # --------------------------------------------------------------------------- R4
 
 
-def _accessors_in(f, expr) -> set[str]:
-    return {c.func.attr for c in calls_deep(f, expr) if isinstance(c.func, ast.Attribute) and isinstance(c.func.value, ast.Name) and c.func.value.id == "ctx"}
+def _helper_binding(p, f, call, ctxnames):
+    """(helper, {its parameters bound to the caller's context}) when `call` (in `f`) resolves to exactly one function of
+    streamflow.cwl.expression that acts on the same listener (`self.m(..)`, a static method, a module function) and whose
+    argument binding is known (no */**); None otherwise.  A context parameter re-bound inside the helper is dropped."""
+    qs = [q for q in p.resolve_call(f, call, fanout=False)]
+    if len(qs) != 1 or qs[0] not in p.functions:
+        return None
+    g = p.functions[qs[0]]
+    if g is f or g.module is not p.module(MOD) or g.is_async or isinstance(g.node, ast.Lambda):
+        return None
+    if any(isinstance(x, ast.Starred) for x in call.args) or any(k.arg is None for k in call.keywords):
+        return None
+    if any(isinstance(n, (ast.Yield, ast.YieldFrom)) for n in g.body_nodes()):
+        return None
+    a = g.node.args
+    pos = [x.arg for x in a.posonlyargs + a.args]
+    static = any((dotted(d) or "") == "staticmethod" for d in g.decorators)
+    if g.cls is not None and not static:
+        # an instance method: only `self.m(..)` is the same listener
+        if not (isinstance(call.func, ast.Attribute) and isinstance(call.func.value, ast.Name) and call.func.value.id == "self" and pos):
+            return None
+        pos = pos[1:]
+    bound = {}
+    for i, x in enumerate(call.args):
+        if i < len(pos):
+            bound[pos[i]] = x
+    for k in call.keywords:
+        bound[k.arg] = k.value
+    cn = {prm for prm, x in bound.items() if isinstance(x, ast.Name) and x.id in ctxnames and all(d.kind == "param" for d in defs_of(g, prm))}
+    return g, cn
+
+
+def _accessors_in(p, f, expr, ctxnames=frozenset({"ctx"}), depth: int = 2) -> set[str]:
+    """Accessors called on the handler's context by `expr` of `f` (`ctxnames`: the names that denote it in `f`), through
+    local temporaries (calls_deep) and through helpers of the module that receive the context itself as an argument:
+    the accessors their return values are computed from (inlining bound `depth`)."""
+    out: set[str] = set()
+    for c in calls_deep(f, expr):
+        if isinstance(c.func, ast.Attribute) and isinstance(c.func.value, ast.Name) and c.func.value.id in ctxnames:
+            out.add(c.func.attr)
+        elif depth > 0 and any(isinstance(x, ast.Name) and x.id in ctxnames for x in [*c.args, *[k.value for k in c.keywords]]):
+            hb = _helper_binding(p, f, c, ctxnames)
+            if hb and hb[1]:
+                g, cn = hb
+                for r in g.body_nodes():
+                    if isinstance(r, ast.Return) and r.value is not None:
+                        out |= _accessors_in(p, g, r.value, frozenset(cn), depth - 1)
+    return out
+
+
+def _const_truth(e):
+    """True / False for an expression whose truth value is fixed (constants), None otherwise."""
+    return bool(e.value) if isinstance(e, ast.Constant) else None
+
+
+def _result_facts(p, f, call, truth: bool, ctxnames, depth: int):
+    """Facts implied by `bool(call) is truth` when `call` resolves to a helper of the module (predicate extraction):
+    [(atom, polarity, helper, context names in the helper)] -- the path facts of the `return` statement that can produce
+    such a result plus the decomposition of its value; with several such returns only the facts common to all of them
+    (same text, same polarity).  None when the call is not an inlinable helper, [] when nothing is implied."""
+    hb = _helper_binding(p, f, call, ctxnames)
+    if hb is None:
+        return None
+    g, cn = hb
+    cn = frozenset(cn)
+    rets = [r for r in g.body_nodes() if isinstance(r, ast.Return)]
+    cand = [r for r in rets if _const_truth(r.value if r.value is not None else ast.Constant(value=None)) in (None, truth)]
+    if not truth and not _leaves(g.node.body):
+        return []  # falling off the end returns None: a falsy result that no test explains
+    per = []
+    for r in cand:
+        fs = list(_facts(r, g))
+        if r.value is not None and _const_truth(r.value) is None:
+            _split_fact(r.value, truth, fs)
+        per.append(fs)
+    if not per:
+        return []
+    keyf = lambda t, pol: (unparse(t), pol)  # noqa: E731
+    common = [(t, pol) for t, pol in per[0] if all(any(keyf(t, pol) == keyf(t2, p2) for t2, p2 in other) for other in per[1:])]
+    return _expand_facts(p, g, common, cn, depth - 1)
+
+
+def _expand_facts(p, f, facts, ctxnames, depth: int = 2) -> list:
+    """[(atom, polarity, function the atom belongs to, names denoting the handler's context there)]: `facts` of `f` with
+    every atom that is a call of a module helper replaced by what the helper's result implies (_result_facts)."""
+    out = []
+    for t, pol in facts:
+        e = t.value if isinstance(t, ast.NamedExpr) else t
+        sub = _result_facts(p, f, e, pol, ctxnames, depth) if depth > 0 and isinstance(e, ast.Call) else None
+        if sub:
+            out.extend(sub)
+        else:
+            out.append((t, pol, f, frozenset(ctxnames)))
+    return out
 
 
 def _denotes_obj(f, expr, use, src_stmt, depth: int = 4) -> bool:
@@ -957,19 +1088,25 @@ def r4(ctx):
         ctx.ob("R4", f"{hname} records the accessed member", bool(adds), func=h, node=h.node, instance=f"{hname}:adds",
                message=f"{hname} never adds to self.deps")
         for a in adds:
-            arg_acc = _accessors_in(h, a.args[0]) if a.args else set()
+            arg_acc = _accessors_in(p, h, a.args[0]) if a.args else set()
             guard_acc = set()
             tracked = False
-            for t, pol in _facts(a, h):
+            via = set()
+            # a test that is a call of a helper of the module (`if self._is_global_member(ctx):`) is read as the facts its
+            # result implies, with the helper's parameter standing for the handler's ctx
+            for t, pol, g, cn in _expand_facts(p, h, _facts(a, h), frozenset({"ctx"})):
                 if pol:
-                    acc = _accessors_in(h, t)
-                    if any(isinstance(c.func, ast.Attribute) and c.func.attr in ("global_names",) for c in calls_deep(h, t)) or "self.names" in unparse(t):
+                    acc = _accessors_in(p, g, t, cn)
+                    if any(isinstance(c.func, ast.Attribute) and c.func.attr in ("global_names",) for c in calls_deep(g, t)) or "self.names" in unparse(t):
                         tracked = True
                         guard_acc |= acc
+                        if g is not h:
+                            via.add(g.name)
             ok = member_acc in arg_acc and "singleExpression" not in arg_acc and tracked and guard_acc == {"singleExpression"}
-            ctx.ob("R4", f"{hname}: receiver (singleExpression) is tested, member ({member_acc}) is added", ok, func=h, node=a,
+            followed = f" (test followed into the helper {', '.join(sorted(via))})" if via else ""
+            ctx.ob("R4", f"{hname}: receiver (singleExpression) is tested, member ({member_acc}) is added{followed}", ok, func=h, node=a,
                    instance=f"{hname}:roles",
-                   message=f"{hname}: dependency is taken from ctx.{sorted(arg_acc)} under a tracked-name test of ctx.{sorted(guard_acc)} (expected member={member_acc}, receiver=singleExpression)")
+                   message=f"{hname}: dependency is taken from ctx.{sorted(arg_acc)} under a tracked-name test of ctx.{sorted(guard_acc)}{followed} (expected member={member_acc}, receiver=singleExpression)")
     # alias branch of the assignment handler
     h = own.get("enterAssignmentExpression")
     if h is not None:
@@ -1058,6 +1195,20 @@ def r4(ctx):
                    "through a library helper is missing from the dependency set")
 
 
+# B17-5: the receiver test of both member handlers extracted into a predicate method of the listener whose parameter is
+# declared with the generic antlr4.ParserRuleContext (text of the class as printed by ast.unparse)
+_MEMBER_TEST = "if self._get_name(ctx.singleExpression()) in self.names.global_names():"
+_DOT_HEAD = "    def enterMemberDotExpression(self, ctx: ECMAScriptParser.MemberDotExpressionContext) -> None:\n        "
+_DOT_TAIL = ("\n            if (dep := self._get_name(ctx.identifierName())):\n                self.deps.add(dep)\n\n"
+             "    def enterMemberIndexExpression(self, ctx: ECMAScriptParser.MemberIndexExpressionContext) -> None:\n        ")
+_MEMBERS_OLD = _DOT_HEAD + _MEMBER_TEST + _DOT_TAIL + _MEMBER_TEST
+
+
+def _extracted(body: str, test: str = "if self._is_global_member(ctx):", name: str = "_is_global_member", dot_test: str | None = None) -> str:
+    helper = f"    def {name}(self, ctx: antlr4.ParserRuleContext) -> bool:\n" + "".join(f"        {ln}\n" for ln in body.split("\n")) + "\n"
+    return helper + _DOT_HEAD + (dot_test or test) + _DOT_TAIL + test
+
+
 RULES = [("R1", r1), ("R2", r2), ("R3", r3), ("R4", r4)]
 FLOORS = {"R1": 14, "R2": 5, "R3": 7, "R4": 13}
 
@@ -1141,7 +1292,36 @@ VARIANTS = [
       "_sf_ret = engine.deps\n        _sf_ret = set()\n        return _sf_ret", "R4"),
     V("returned temporary is another attribute of the engine", CUFILE, f"{CWLUTILS}.resolve_dependencies", "return engine.deps",
       "_sf_ret = engine.context_key\n        return _sf_ret", "R4"),
+    # predicate extraction (benign corpus B17-5): the helper is read through the resolved call, so it must still test the receiver
+    V("extracted predicate tests the member name", FILE, LISTENER, _MEMBERS_OLD,
+      _extracted("return self._get_name(ctx.identifierName()) in self.names.global_names()"), "R4"),
+    V("extracted predicate calls an accessor one of its call sites lacks", FILE, LISTENER, _MEMBERS_OLD,
+      _extracted("return self._get_name(ctx.identifierName()) in self.names.global_names()"), "R1"),
+    V("extracted predicate has the wrong polarity", FILE, LISTENER, _MEMBERS_OLD,
+      _extracted("return self._get_name(ctx.singleExpression()) not in self.names.global_names()"), "R4"),
+    V("extracted predicate ignores the tracked names", FILE, LISTENER, _MEMBERS_OLD,
+      _extracted("return bool(self._get_name(ctx.singleExpression()))"), "R4"),
+    V("extracted predicate is also true on an untested path", FILE, LISTENER, _MEMBERS_OLD,
+      _extracted("if ctx.getChildCount() > 3:\n    return True\nreturn self._get_name(ctx.singleExpression()) in self.names.global_names()"), "R4"),
+    V("extracted predicate negated at the call sites", FILE, LISTENER, _MEMBERS_OLD,
+      _extracted("return self._get_name(ctx.singleExpression()) in self.names.global_names()", test="if not self._is_global_member(ctx):"), "R4"),
+    V("extracted predicate handed the member context", FILE, LISTENER, _MEMBERS_OLD,
+      _extracted("return self._get_name(ctx.singleExpression()) in self.names.global_names()", dot_test="if self._is_global_member(ctx.identifierName()):"), "R1"),
     # ---- benign
+    V("benign: receiver test extracted into a predicate method with a generic parameter type (B17-5)", FILE, LISTENER, _MEMBERS_OLD,
+      _extracted("return self._get_name(ctx.singleExpression()) in self.names.global_names()"), None),
+    V("benign: extracted predicate with a temporary and a guard clause", FILE, LISTENER, _MEMBERS_OLD,
+      _extracted("receiver = self._get_name(ctx.singleExpression())\nif not receiver:\n    return False\nreturn receiver in self.names.global_names()"), None),
+    V("benign: extracted predicate returns True / False from an if statement", FILE, LISTENER, _MEMBERS_OLD,
+      _extracted("if self._get_name(ctx.singleExpression()) in self.names.global_names():\n    return True\nreturn False"), None),
+    V("benign: extracted negative predicate, negated at the call sites", FILE, LISTENER, _MEMBERS_OLD,
+      _extracted("return self._get_name(ctx.singleExpression()) not in self.names.global_names()", test="if not self._is_local_member(ctx):", name="_is_local_member"), None),
+    V("benign: token helpers generalised into one parameterised helper (B17-5)", FILE, LISTENER,
+      "    @staticmethod\n    def _get_index(ctx: antlr4.ParserRuleContext) -> str | None:\n        token = ctx.getToken(ECMAScriptParser.StringLiteral, 0)\n        return token.symbol.text if token else None\n\n"
+      "    @staticmethod\n    def _get_name(ctx: antlr4.ParserRuleContext) -> str | None:\n        token = ctx.getToken(ECMAScriptParser.Identifier, 0)\n        return token.symbol.text if token else None\n",
+      "    @staticmethod\n    def _get_token_text(ctx: antlr4.ParserRuleContext, token_type: int) -> str | None:\n        token = ctx.getToken(token_type, 0)\n        return token.symbol.text if token else None\n\n"
+      "    @staticmethod\n    def _get_index(ctx: antlr4.ParserRuleContext) -> str | None:\n        return CWLDependencyListener._get_token_text(ctx, ECMAScriptParser.StringLiteral)\n\n"
+      "    @staticmethod\n    def _get_name(ctx: antlr4.ParserRuleContext) -> str | None:\n        return CWLDependencyListener._get_token_text(ctx, ECMAScriptParser.Identifier)\n", None),
     V("benign: parameter list fetched before the scope push", FILE, f"{LISTENER}.enterFunctionDeclaration",
       "self.names.add_scope()\n    parameters = ctx.formalParameterList()", "parameters = ctx.formalParameterList()\n    self.names.add_scope()", None),
     V("benign: shadow loop without the outer test, renamed locals", FILE, f"{LISTENER}.enterFunctionDeclaration",
